@@ -55,6 +55,10 @@ CLAIMED = {
   "multi-period streams (1-3 periods over fixture and forged streams, source offsets and durations on and off segment boundaries, periods reaching beyond the source) are created through the management API; players fetch /mps/live|vod manifests of every template while the clock walks across period and loop boundaries, the server restarts and a manager creates, edits and deletes a different multi-period stream concurrently; oracle: unique ids, contiguity, VOD durations sum to mediaPresentationDuration, live periods cover [now-TSBD, now]; per period: init and every admitted number served, number n carries the payload of the n-th stored segment counted from the one nearest the period's source offset (own scan of the stored files), decode times from 0 and gapless, numbers beyond the source refused with 404",
   "sampling; the per-period walk is done for $Number$ addressing as the statement speaks of segment numbers, SegmentTimeline manifests of multi-period streams are judged at manifest level only",
   TECH + "period-walk oracle against own scan of the stored media"),
+ "C14": ("exploration",
+  "players follow a video Representation over runs of consecutive segments (vod: the whole track; live: the whole availability window, by number and by timeline, across loops of the source) with event schedules from the swarm (ping/scte35, start, interval, count incl. 0, duration, timescale 1..90000, emsg v0/v1, inband flag); duplicated requests, refresh overlap, interleaved clients and restarts are injected; history oracle over the run: the multiset of emsg ids equals the scheduled events inside the run (events within one tick of the coarser timescale of a run edge may go either way), each in the segment containing it and resolving to its instant; out-of-band manifests list the same schedule; every SCTE-35 payload seen in flight is decoded by an independent bit reader (CRC-32/MPEG-2, event id, PTS, break duration)",
+  "sampling; the encode/parse identity over all SCTE-35 field values is a pure function and is not claimed; event density is bounded to >= 0.1 s intervals to keep requests cheap",
+  TECH + "history oracle over fetched runs + independent SCTE-35 reader"),
 }
 
 PENDING_REASON = "check not built yet in this session (planned, see DESIGN.md build order); not claimed until its simulation exists"
